@@ -24,7 +24,7 @@ OPAQUE_ATTRS = {
 }
 
 OPAQUE_METHODS = {
-    ("InternalRunAdapter", "on_tick"): dict(ret="None", pure=False, log=True),
+    ("InternalRunAdapter", "on_tick"): dict(ret="None", pure=False, log=True, may_raise=True),
     ("AbstractWorkflowStore", "append_tick"): dict(ret="None", pure=False, log=True, may_raise=True),
     # pydantic's TypeAdapter.dump_python: a function of the tick (assumed)
     ("TickAdapter", "dump_python"): dict(ret="opaque:TickData", pure=True),
